@@ -95,7 +95,8 @@ class LiteralToken(RegexpBaseToken):
                 real_value = int(self.value[2])
             real_value = str(real_value)
         elif self.value[1] or self.value[0] == '""':
-            real_value = f'\'{self.value[1]}\''
+            # repr() escapes quotes, backslashes and line breaks: the text stays a string literal in the generated code
+            real_value = repr(self.value[1])
         elif self.value[8]:
             real_value = 'True'
         elif self.value[10]:
